@@ -19,13 +19,13 @@ pub fn dispatch() -> Option<ExitCode> {
     std::panic::set_hook(Box::new(|_| {}));
     l2::install_logger();
     let stdin = std::io::stdin();
-    let stdout = std::io::stdout();
-    let mut out = stdout.lock();
     for line in stdin.lock().lines() {
         let line = match line { Ok(l) => l, Err(_) => break };
         let toks: Vec<&str> = line.split(' ').filter(|t| !t.is_empty()).collect();
         if toks.is_empty() { continue; }
         let ans = handle(&toks);
+        // (stdout is not kept locked while a request is handled: the real code prints prompts from other threads)
+        let mut out = std::io::stdout().lock();
         let _ = writeln!(out, "@@ {}", ans);
         let _ = out.flush();
     }
@@ -43,6 +43,7 @@ fn handle(toks: &[&str]) -> String {
         "key" => l1::key(&toks[1..]).unwrap_or_else(|| "bad-op".to_string()),
         "wire" => wire::wire(&toks[1..]).unwrap_or_else(|| "bad-op".to_string()),
         "chan" => wire::chan(&toks[1..]).unwrap_or_else(|| "bad-op".to_string()),
+        "selstress" => wire::selstress(&toks[1..]).unwrap_or_else(|| "bad-op".to_string()),
         "filt" => l1::filt(&toks[1..]).unwrap_or_else(|| "bad-op".to_string()),
         "rpd" => l1::rpd(&toks[1..]).unwrap_or_else(|| "bad-op".to_string()),
         _ => "bad-op".to_string(),
